@@ -464,3 +464,31 @@ func (v *VerifSentPH) AlarmTime() int64 { return int64(v.h.alarm.Time) }
 func (v *VerifSentPH) PeerCompletedAddressValidation() bool {
 	return v.h.peerCompletedAddressValidation
 }
+
+// VerifSentPHWrap wraps a sent packet handler created elsewhere (e.g. by a connection) so that the harness can
+// drive it and read the oracle values / generator draws the model needs. The congestion controller is left alone.
+func VerifSentPHWrap(h SentPacketHandler) *VerifSentPH {
+	v := &VerifSentPH{}
+	switch x := h.(type) {
+	case *sentPacketHandler:
+		v.h = x
+	case *uSentPacketHandler:
+		v.h = x.sentPacketHandler
+	default:
+		return nil
+	}
+	v.rtt = v.h.rttStats
+	v.cc = &verifSentPHCC{v: v, canSend: true, hasBudget: true}
+	g := v.h.appDataPackets.pns.(*skippingPacketNumberGenerator)
+	v.Rnd0 = int64(g.nextToSkip - g.next - 3)
+	return v
+}
+
+// AppSkipped: the skipped packet numbers the application-data history currently records.
+func (v *VerifSentPH) AppSkipped() []int64 {
+	var out []int64
+	for pn := range v.h.appDataPackets.history.SkippedPackets() {
+		out = append(out, int64(pn))
+	}
+	return out
+}
